@@ -68,26 +68,35 @@ SEL_MM_F = [(MM, r'(find|find_iter|Finder::.*|FinderBuilder::.*)'), (COW, r'.*')
 SEL_MM_R = [(MM, r'(rfind|rfind_iter|FinderRev::.*|FinderBuilder::build_reverse)'), (COW, r'.*'), (r'^x_memmem$', r'.*'),
             (PRE, r'SearcherRev::.*')]
 
+SEL_GLUE_S = [(PRE, r'searcher_kind_.*')]
+SEL_GLUE_P = [(PRE, r'(prefilter_kind_.*|Prefilter::find_simple)')]
+SEL_SUB_F = SEL_RK_F + SEL_PP_FIND + SEL_PP_PRE + SEL_TW_F + SEL_GLUE_S + SEL_GLUE_P + SEL_C01
+SEL_SUB_R = SEL_RK_R + SEL_TW_R + SEL_C02
+
 A_TW = 'A6 Two-Way completeness (no occurrence skipped) is NOT proved: assumed in the memmem build (stub_twoway), backed only by bounded Kani harnesses (needle<=4/haystack<=7 quick, <=5/<=9 thorough)'
-A_GLUE = 'A6 the union + fn-pointer meta searcher (Searcher, Prefilter::find) is represented by an assumed contract; the real glue is executed only by the bounded Kani glue harnesses'
+A_GLUE = 'A6 calling through the fn pointers of the meta searcher (Searcher::find/new, Prefilter::find and its constructors, i.e. the pairing of `call` with the active union field) is represented by an assumed contract; the union-reading glue functions searcher_kind_* / prefilter_kind_* themselves ARE proved; the fn-pointer hop is executed only by the bounded Kani glue harnesses'
 A_DISP = 'A2 unsafe_ifunc! dispatcher: finally calls one of find_avx2/find_sse2/find_fallback (each verified) with the same arguments (rule X6; AtomicPtr/transmute/cpuid not verified)'
 A_LEAF = 'A3 x86 Vector leaf impls are external_body in Verus; closed by loop-free full-domain Kani harnesses (trusting Kani\'s SSE2/AVX2 intrinsic models); NEON/wasm32 backends are not covered'
 A_CTOR = 'Rabin-Karp constructors, Pair::with_ranker, ApproximateByteSet::new use iterator adapters outside Verus\' language: contract assumed (external_body), backed by bounded Kani harnesses'
 
 K_LEAF = [dict(name='leaf_sse2'), dict(name='leaf_avx2'), dict(name='leaf_sse2_aligned_load'), dict(name='leaf_avx2_aligned_load')]
 K_POP = [dict(name='leaf_count_ones_spec')]
-K_TW_F = [dict(name='bounded_twoway_fwd_n4_h7', bounded=True, bound='needle<=4, haystack<=7, all byte values', timeout=900),
-          dict(name='bounded_twoway_fwd_n5_h9', bounded=True, bound='needle<=5, haystack<=9', tier='thorough', timeout=7200)]
-K_TW_R = [dict(name='bounded_twoway_rev_n4_h7', bounded=True, bound='needle<=4, haystack<=7, all byte values', timeout=900),
-          dict(name='bounded_twoway_rev_n5_h9', bounded=True, bound='needle<=5, haystack<=9', tier='thorough', timeout=7200)]
-K_RK_F = [dict(name='bounded_rabinkarp_fwd_n4_h8', bounded=True, bound='needle<=4, haystack<=8', timeout=900)]
-K_RK_R = [dict(name='bounded_rabinkarp_rev_n4_h8', bounded=True, bound='needle<=4, haystack<=8', timeout=900)]
-K_SO = [dict(name='bounded_shiftor_n4_h8', bounded=True, bound='needle<=4, haystack<=8', timeout=900),
+K_TW_F = [dict(name='bounded_twoway_fwd_n4_h7', bounded=True, bound='needle<=4, haystack<=7, all byte values', timeout=1500),
+          dict(name='bounded_twoway_fwd_n5_h9', bounded=True, bound='needle<=5, haystack<=9', tier='thorough', timeout=14400)]
+K_TW_R = [dict(name='bounded_twoway_rev_n3_h6', bounded=True, bound='needle<=3, haystack<=6, all byte values', timeout=1500),
+          dict(name='bounded_twoway_rev_n4_h7', bounded=True, bound='needle<=4, haystack<=7', tier='thorough', timeout=7200),
+          dict(name='bounded_twoway_rev_n5_h9', bounded=True, bound='needle<=5, haystack<=9', tier='thorough', timeout=14400)]
+K_RK_F = [dict(name='bounded_rabinkarp_fwd_n4_h8', bounded=True, bound='needle<=4, haystack<=8', timeout=1500)]
+K_RK_R = [dict(name='bounded_rabinkarp_rev_n4_h8', bounded=True, bound='needle<=4, haystack<=8', timeout=1500)]
+K_SO = [dict(name='bounded_shiftor_n4_h8', bounded=True, bound='needle<=4, haystack<=8', timeout=1500),
         dict(name='bounded_shiftor_unsupported_len', bounded=True, bound='needle<=17', timeout=900)]
-K_PAIR = [dict(name='bounded_pair_with_ranker_n24', bounded=True, bound='needle<=24, fully symbolic 256-entry ranker', timeout=900)]
-K_GLUE = [dict(name='bounded_glue_sse2_n2_h19', bounded=True, bound='needle<=2, haystack<=19, symbolic ranker and PrefilterConfig, AVX2 stubbed off', timeout=1500),
-          dict(name='bounded_glue_fallback_n2_h19', bounded=True, bound='needle<=2, haystack<=19, SSE2+AVX2 stubbed off', tier='thorough', timeout=1500)]
-K_GLUE_R = [dict(name='bounded_glue_rev_n3_h6', bounded=True, bound='needle<=3, haystack<=6', timeout=900)]
+K_PAIR = [dict(name='bounded_pair_with_ranker_n24', bounded=True, bound='needle<=24, fully symbolic 256-entry ranker', timeout=1500),
+          dict(name='bounded_pair_default_ranker_long_tail', bounded=True, bound='needle length 254..=260 (253 fixed bytes + 6 symbolic), default ranker', timeout=1500),
+          dict(name='bounded_pair_with_ranker_long_tail', bounded=True, bound='needle length 250..=260 (252 fixed + 8 symbolic bytes), fully symbolic ranker', tier='thorough', timeout=7200)]
+K_GLUE = [dict(name='bounded_glue_fwd_n2_h4', bounded=True, bound='needle=2 bytes, haystack<=4, SIMD finders stubbed unavailable (fn-pointer pairing of Searcher::new/find)', timeout=1500),
+          dict(name='bounded_glue_sse2_n2_h19', bounded=True, bound='needle<=2, haystack<=19, symbolic ranker and PrefilterConfig, AVX2 stubbed off', tier='thorough', timeout=14400)]
+K_GLUE_R = [dict(name='bounded_glue_rev_n3_h6', bounded=True, bound='needle<=3, haystack<=6', timeout=1500)]
+K_TWPRE = [dict(name='bounded_twoway_prefilter_fwd_n3_h7', bounded=True, bound='needle 2..=3, haystack<=7, Two-Way with the portable prefilter', tier='thorough', timeout=14400)]
 
 PROPS = {
     'C01': dict(level='proof', kinds=FUNCTIONAL, kani=K_LEAF,
@@ -96,10 +105,10 @@ PROPS = {
     'C02': dict(level='proof', kinds=FUNCTIONAL, kani=K_LEAF,
                 builds=[dict(build='main', modules=MAIN_MODS_MEMCHR, select=SEL_C02)],
                 assumptions=[A_DISP, A_LEAF]),
-    'C03': dict(level='other', kinds=FUNCTIONAL, kani=K_TW_F + K_RK_F + K_GLUE,
+    'C03': dict(level='other', kinds=FUNCTIONAL, kani=K_TW_F + K_RK_F + K_GLUE + K_TWPRE,
                 builds=[dict(build='memmem', modules=['memmem', 'cow', 'x_memmem'], select=SEL_MM_F),
                         dict(build='main', modules=MAIN_MODS_SUB + MAIN_MODS_MEMCHR,
-                             select=SEL_RK_F + SEL_PP_FIND + SEL_PP_PRE + SEL_TW_F + SEL_C01)],
+                             select=SEL_SUB_F)],
                 explanation='hybrid: Verus proves the front end (memmem::find, Finder::find, builders) against assumed searcher contracts, and '
                             'proves the blocks (Rabin-Karp search = leftmost, packed-pair find = leftmost, Two-Way soundness/no-panic); Two-Way '
                             'completeness, constructors with iterator adapters and the union/fn-pointer glue are BOUNDED Kani harnesses',
@@ -124,31 +133,31 @@ PROPS = {
     'C07': dict(level='proof', kinds=FUNCTIONAL, kani=K_LEAF + K_POP,
                 builds=[dict(build='main', modules=MAIN_MODS_MEMCHR, select=SEL_C07)],
                 assumptions=[A_DISP, A_LEAF, 'u32::count_ones spec (popcount32) assumed in Verus, cross-checked by Kani harness leaf_count_ones_spec']),
-    'C08': dict(level='other', kinds=FUNCTIONAL, kani=[],
+    'C08': dict(level='other', kinds=FUNCTIONAL, kani=K_TW_F + K_TW_R,
                 builds=[dict(build='memmem', modules=['memmem', 'x_memmem'],
                              select=[(MM, r'(FindIter|FindRevIter)::.*'), (MM, r'(find_iter|rfind_iter)'), (MM, r'(Finder|FinderRev)::(find_iter|rfind_iter)'),
                                      (r'^x_memmem$', r'.*')]),
                         dict(build='main', modules=MAIN_MODS_SUB + MAIN_MODS_MEMCHR,
-                             select=SEL_RK_F + SEL_RK_R + SEL_PP_FIND + SEL_PP_PRE + SEL_TW_F + SEL_TW_R + SEL_C01 + SEL_C02)],
+                             select=SEL_SUB_F + SEL_SUB_R)],
                 explanation='Verus proves FindIter/FindRevIter next and size_hint equal the greedy sequence, for every PrefilterState, against the '
                             'assumed Searcher / SearcherRev contracts (C03/C04 decide those)',
                 assumptions=[A_GLUE, A_TW]),
     'C09': dict(level='proof', kinds=FUNCTIONAL, kani=K_LEAF,
-                builds=[dict(build='main', modules=MAIN_MODS_MEMCHR, select=SEL_C01 + SEL_C02 + SEL_C07)],
+                builds=[dict(build='main', modules=MAIN_MODS_MEMCHR + MAIN_MODS_SUB, select=SEL_C01 + SEL_C02 + SEL_C07 + SEL_SUB_F + SEL_SUB_R)],
                 explanation='corollary: SWAR, SSE2 and AVX2 implementations and all three dispatcher targets are proved against the same '
                             'functional specification whose answer is unique',
                 assumptions=[A_DISP, A_LEAF, 'NEON and wasm32 simd128 wrappers/Vector impls are not extracted in this version (host cannot compile them); the '
                                              'generic algorithm they instantiate is proved for every V: Vector satisfying the trait contract']),
-    'C10': dict(level='other', kinds=FUNCTIONAL, kani=K_GLUE,
+    'C10': dict(level='other', kinds=FUNCTIONAL, kani=K_GLUE + K_PAIR + K_TWPRE,
                 builds=[dict(build='memmem', modules=['memmem', 'x_memmem'], select=[(MM, r'(Finder::find|FindIter::next|FinderBuilder::.*)'), (PRE, r'(Pre|PrefilterState)::.*')]),
                         dict(build='main', modules=MAIN_MODS_SUB + MAIN_MODS_MEMCHR,
-                             select=SEL_TW_F + SEL_PP_PRE + SEL_PP_FIND + SEL_RK_F + SEL_C01 + [(PRE, r'.*')])],
+                             select=SEL_SUB_F + [(PRE, r'.*')])],
                 explanation='the assumed Searcher contract mentions neither PrefilterConfig, ranker nor PrefilterState (holds for all); Two-Way '
                             'with a prefilter is proved sound/no-panic for every prefilter answer; bounded Kani runs the real glue with a fully '
                             'symbolic ranker table and symbolic config',
                 assumptions=[A_GLUE, A_TW]),
     'C11': dict(level='proof', kinds=FUNCTIONAL, kani=K_LEAF,
-                builds=[dict(build='main', modules=MAIN_MODS_SUB + MAIN_MODS_MEMCHR, select=SEL_PP_PRE + SEL_C01)],
+                builds=[dict(build='main', modules=MAIN_MODS_SUB + MAIN_MODS_MEMCHR, select=SEL_PP_PRE + SEL_GLUE_P + SEL_C01)],
                 assumptions=[A_LEAF, 'the fn-pointer hop Prefilter::find -> prefilter_kind_* is glue (bounded Kani only)']),
     'C12': dict(level='other', kinds=FUNCTIONAL, kani=K_TW_F + K_TW_R + K_RK_F + K_RK_R + K_SO,
                 builds=[dict(build='main', modules=MAIN_MODS_SUB, select=SEL_RK_F + SEL_RK_R + SEL_PP_FIND + SEL_TW_F + SEL_TW_R)],
@@ -164,7 +173,7 @@ PROPS = {
     'C16': dict(level='other', kinds=FUNCTIONAL, kani=[],
                 builds=[dict(build='memmem', modules=['memmem', 'cow', 'x_memmem'], select=[(MM, r'(Finder|FinderRev|FindIter|FindRevIter)::.*'), (COW, r'.*')]),
                         dict(build='main', modules=MAIN_MODS_SUB + MAIN_MODS_MEMCHR,
-                             select=SEL_RK_F + SEL_RK_R + SEL_PP_FIND + SEL_PP_PRE + SEL_TW_F + SEL_TW_R + SEL_C01 + SEL_C02)],
+                             select=SEL_SUB_F + SEL_SUB_R)],
                 explanation='the result is determined by (needle, haystack) because Finder::find creates a fresh PrefilterState and the searcher '
                             'contract is universally quantified over it; as_ref/into_owned/needle contracts proved; derived Clone on the '
                             'front-end types carries no Verus spec (not covered)',
